@@ -21,7 +21,8 @@ RULE = ('exhaustive enumeration of all declaration sequences up to length 3 (qui
         'the alphabet ' + ', '.join(OPS) + '; after every declaration the real Prior is compared with a '
         'reference interpreter (keys unique, rejected declarations raise ValueError/TypeError and leave '
         'keys/dists unchanged); at the end of every sequence dimensionality, unit_to_physical and '
-        'unit_to_dictionary are checked for inputs of shape (d,) and (n,d). Non-trivial = a sequence with '
+        'unit_to_dictionary are checked for inputs of shape (d,) and (n,d); every sequence is executed a second time with '
+        'the transforms also evaluated after every accepted declaration (a prior that is used and then extended). Non-trivial = a sequence with '
         '>= 1 accepted free parameter (so the transform checks ran); every enumerated sequence is distinct.')
 ASSUMPTIONS = ['inverse CDF compared with scipy ppf(u) / isf(1-u) at rel. 1e-9 for u in [1e-3, 1-1e-3]; '
                'extreme u only checked for shape and monotonicity',
@@ -196,7 +197,9 @@ def _check_transforms(prior, ref, rng, bad):
     return n_checks
 
 
-def _run_sequence(seq, rng, obs):
+def _run_sequence(seq, rng, obs, interleave=False):
+    """interleave=True: the transforms are also evaluated after EVERY accepted declaration (a prior that has been
+    used - e.g. by an earlier Sampler run - and is then extended), not only at the end."""
     from nautilus import Prior
     prior = Prior()
     ref = Ref()
@@ -252,6 +255,10 @@ def _run_sequence(seq, rng, obs):
             bad('prior.wrong-key', '%s stored key %r' % (shown, new_key))
             return viol, False
         ref.items.append((new_key, exp[1], exp[2]))
+        if interleave and step < len(seq) - 1:
+            obs['transform_checks_between_declarations'] += _check_transforms(prior, ref, rng, bad)
+            if viol:
+                return viol, False
     had_free = any(kind == 'free' for _, kind, _ in ref.items)
     obs['transform_checks'] += _check_transforms(prior, ref, rng, bad)
     return viol, had_free
@@ -259,7 +266,7 @@ def _run_sequence(seq, rng, obs):
 
 def run_case(spec):
     rng = np.random.default_rng(np.random.SeedSequence([spec['seed'], 15]))
-    obs = dict(sequences=0, declarations=0, accepted=0, rejected=0, transform_checks=0,
+    obs = dict(sequences_interleaved=0, transform_checks_between_declarations=0, sequences=0, declarations=0, accepted=0, rejected=0, transform_checks=0,
                other_documented_exception=0, sequences_with_links=0)
     viols = {}
     n_nontrivial = 0
@@ -270,6 +277,10 @@ def run_case(spec):
             obs['sequences'] += 1
             v, had_free = _run_sequence(seq, rng, obs)
             n_nontrivial += int(had_free)
+            if len(seq) > 1:
+                v2, _ = _run_sequence(seq, rng, obs, interleave=True)
+                obs['sequences_interleaved'] += 1
+                v = v + [dict(x, evaluated_between_declarations=True) for x in v2]
             if any(o.startswith('link') or o == 'auto_link_last' for o in seq):
                 obs['sequences_with_links'] += 1
             if had_free and example is None and len(seq) == len(spec['prefix']) + spec['extend']:
